@@ -582,11 +582,11 @@ type Step struct {
 	Post     string
 	ModelOp  string
 	Replies  []*Reply
-	Captured bool   // IsCaptured(chaddr) when the message was processed
-	Tracked  []byte // MAC the session tracked for the reply address when the message was processed (nil: none)
-	Err      string // panic / dump problem
-	Skipped  bool   // frame not dispatched (Parse refused it)
-	Refused  string // a message frame Parse did not hand to the DHCP handler (why)
+	Captured bool      // IsCaptured(chaddr) when the message was processed
+	Tracked  []byte    // MAC the session tracked for the reply address when the message was processed (nil: none)
+	Err      string    // panic / dump problem
+	Skipped  bool      // frame not dispatched (Parse refused it)
+	Refused  string    // a message frame Parse did not hand to the DHCP handler (why)
 	Others   [][]byte  // frames the server wrote that are not BOOTREPLYs from port 67 (client messages it sends on the side)
 	T0, T1   time.Time // wall clock before / after the call
 	Expiry   time.Time // DHCPExpiry of the client's lease after the step (zero: no lease)
@@ -1410,6 +1410,28 @@ func Eval(c *core.Ctx, line string) *core.Case {
 	if f := strings.Fields(line); len(f) >= 2 && f[0] == "dhcp.new" {
 		return evalNew(c, f[1])
 	}
+	if f := strings.Fields(line); len(f) == 5 && f[0] == "dhcp.conc" {
+		// concurrent stage (conc.go): decided for C12 only, no model counterpart
+		if c.Prop != "C12" {
+			return nil
+		}
+		var cfgIdx, mode, seed, rounds int
+		fmt.Sscan(f[1], &cfgIdx)
+		fmt.Sscan(f[2], &mode)
+		fmt.Sscan(f[3], &seed)
+		fmt.Sscan(f[4], &rounds)
+		if cfgIdx < 0 || cfgIdx >= NumBase || mode < 1 || mode > 3 {
+			return nil
+		}
+		bad := concRound(cfgIdx, mode, int64(seed), rounds)
+		return &core.Case{Line: "dhcp.new -", Impl: "-", Trivial: true, Class: "concurrent", Cmp: func(a, b string) bool { return true },
+			Oracle: func() (string, string) {
+				if bad == "" {
+					return "", ""
+				}
+				return "C12: " + bad + "   [" + line + "]", ""
+			}}
+	}
 	cfgIdx, mode, ops, ok := parseHist(line)
 	if !ok {
 		return nil
@@ -2017,6 +2039,13 @@ func Gen(c *core.Ctx) {
 	depth := c.Scale(4, 6)
 	genNew(c)
 	scenarios(c)
+	if c.Prop == "C12" {
+		for k := 0; k < c.Scale(6, 60); k++ {
+			if cs := Eval(c, fmt.Sprintf("dhcp.conc %d %d %d %d", k%NumBase, 1+(k/NumBase)%3, c.Rnd.Intn(1<<20), c.Scale(600, 3000))); cs != nil {
+				c.Add(*cs)
+			}
+		}
+	}
 	for cfgIdx := 0; cfgIdx < NumBase; cfgIdx++ {
 		for mode := 1; mode <= 3; mode++ {
 			d := depth
